@@ -164,6 +164,39 @@ def guarded_selection_pairs(rng, n):
     return done, bad
 
 
+def sorts_with_unhashable_literals(rng, n):
+    """Sort after sort where a term looks a value up in a literal table (a dict / a list: not hashable): the merge must
+    not raise and the merged tree must order the rows like the two sorts in sequence.  Judged in Python."""
+    import lsst.daf.relation as dr
+    from lsst.daf.relation import iteration
+    E = dr.ColumnExpression
+    bad, done = [], 0
+    a, b = K(1), K(2)
+    for _ in range(n):
+        eng = iteration.Engine(name="unh")
+        rows = [{a: rng.choice((0, 1, 2)), b: rng.choice((0, 1, 2, 3))} for _ in range(rng.choice([4, 6]))]
+        leaf = eng.make_leaf({a, b}, payload=iteration.RowSequence([dict(r) for r in rows]), name="U")
+        table = {0: rng.choice((0, 5)), 1: rng.choice((1, 3)), 2: rng.choice((2, 0))} if rng.random() < 0.6 else [3, 1, 2]
+        look = E.function("getitem", E.literal(table), E.reference(a))
+        key1 = (lambda r: table[r[a]])
+        first_is_lookup = rng.random() < 0.5
+        t1 = dr.SortTerm(look if first_is_lookup else E.reference(b), rng.random() < 0.5)
+        t2 = dr.SortTerm(E.reference(b) if first_is_lookup else look, rng.random() < 0.5)
+        k1, k2 = (key1, lambda r: r[b]) if first_is_lookup else (lambda r: r[b], key1)
+        want = sorted(rows, key=k1, reverse=not t1.ascending)
+        want = sorted(want, key=k2, reverse=not t2.ascending)
+        try:
+            rel = leaf.sorted([t1]).sorted([t2])
+            got = [dict(r) for r in eng.execute(rel)]
+            problem = None if got == want else f"rows {got} instead of {want}"
+        except Exception as e:  # noqa: BLE001
+            problem = f"{type(e).__name__}: {e}"
+        done += 1
+        if problem:
+            bad.append({"terms": [str(t1), str(t2)], "rows": jsonable(rows), "problem": problem})
+    return done, bad
+
+
 def run(ctx):
     rng = random.Random(ctx.seed)
     s1 = core.s1(ctx, ["Slice"], "Properties.C05", THEOREMS,
@@ -180,6 +213,9 @@ def run(ctx):
     ng, gbad = guarded_selection_pairs(rng, 60 if ctx.tier == "quick" else 1000)
     for g in gbad[:3]:
         found |= ctx.failing_case({"kind": "guarded-selection-pair", "case": g}, None)
+    nu, ubad = sorts_with_unhashable_literals(rng, 40 if ctx.tier == "quick" else 600)
+    for g in ubad[:3]:
+        found |= ctx.failing_case({"kind": "sort-merge-with-unhashable-literal", "case": g}, None)
     core.conclude_s1(ctx, s1, found or bool(ctx.violations))
     distinct = {c["key"] for c in cases if c["nontrivial"]}
     ctx.coverage.update({
@@ -189,6 +225,7 @@ def run(ctx):
                 "nodes than calls); distinct = distinct program text",
         "traces_validated_against_impl": summ["evaluated"], "judgement": summ,
         "raised": len(raised), "guarded_selection_pairs": {"run": ng, "failing": len(gbad)},
+        "sort_merges_with_unhashable_literals": {"run": nu, "failing": len(ubad)},
         "samples": [c["json"]["program"] for c in cases[:2] + cases[-2:]],
         "exhaustive_parts": "slice-after-slice pairs over all bounds in 0..%d ∪ {None}" % (4 if ctx.tier == "quick" else 7),
     })
